@@ -223,6 +223,20 @@ fn nested_programs() -> Vec<(&'static str, Program, Vec<Vec<Val>>)> {
         }
     }
     out.push(("enum-in-struct-in-array", p, ins));
+    // loops over arrays whose elements have no bits: one iteration per element
+    {
+        let unit = || tup(vec![]);
+        let body = vec![
+            let_mut("c", var("a")),
+            for_(pvar("u"), ex(ExprKind::ArrRep(Box::new(unit()), 3)), vec![assign("c", vec![], bin(BinOp::BitXor, bin(BinOp::Add, var("c"), u8l(1)), u8l(64)))]),
+            let_("pairs", arr(vec![tup(vec![unit(), unit()]), tup(vec![unit(), unit()])])),
+            for_(Pat::Tup(vec![pvar("p"), pvar("q")]), var("pairs"), vec![assign("c", vec![], bin(BinOp::Add, var("c"), u8l(3)))]),
+            expr_stmt(var("c")),
+        ];
+        let p = Program::simple_main(vec![("a", u8t.clone()), ("pad", Ty::Bool)], u8t.clone(), body);
+        let ins = [0u8, 5, 250, 255].iter().map(|v| vec![Val::u8(*v), Val::Bool(false)]).collect();
+        out.push(("loops-over-zero-width-elements", p, ins));
+    }
     out
 }
 
